@@ -377,6 +377,12 @@ def iso_extra(prop, tier, seed):
         ops = [dict(op="Schedule", a=a, b=b, gate=g, spare=sp, lstate=False) for (a, b, g) in pairs]
         n += 1
         out.append(dict(id="sch_spare%d" % sp, ops=ops))
+    # plain application TLS clients offering different ALPN names through a base configuration that lists none (handled one
+    # after the other), and handshakes held up at an unwrap of a stored key (storage wrapper = KMS round trips) while another runs
+    out.append(dict(id="sch_base", ops=[dict(op="Schedule", a=a, b=b, gate="none", spare=0, lstate=False, bare=bare, sw=False)
+                                         for bare in (True, False) for (a, b) in (("baseA", "baseB"), ("baseB", "baseA"), ("baseA", "auth"), ("auth", "baseB"))]))
+    out.append(dict(id="sch_unwrap", ops=[dict(op="Schedule", a=a, b=b, gate=g, spare=sp, lstate=False, bare=False, sw=True)
+                                           for sp in (0, 2) for g in ("unwrap1", "unwrap2", "unwrap3") for (a, b) in (("auth", "auth"), ("auth", "token"), ("token", "auth"))]))
     # the listener's own options carry a state VALUE shared by every handshake
     out.append(dict(id="sch_lstate", ops=[dict(op="Schedule", a=a, b=b, gate=g, spare=sp, lstate=True) for sp in (0, 2) for (a, b, g) in pairs]))
     for r in range(3 if tier == "quick" else 40):
